@@ -6,12 +6,29 @@ shards), plain (the test enumerates / draws itself from VERIF_SEED, VERIF_SHARD)
 fuzz (native go fuzzing, thorough only).
 """
 
+def plain(name, test, quick, thorough, **kw):
+    d = {"name": name, "test": test, "kind": "plain", "quick": quick, "thorough": thorough}
+    d.update(kw)
+    return d
+
 def rapid(name, test, quick, thorough, **kw):
     d = {"name": name, "test": test, "kind": "rapid", "quick": quick, "thorough": thorough}
     d.update(kw)
     return d
 
 CHECKS = {
+    "C18": {
+        "level": "exploration",
+        "exhaustive_phases": [],
+        "phases": [
+            rapid("prop", "TestProp",
+                  {"checks": 1200, "shards": 12, "timeout": 300},
+                  {"checks": 24000, "shards": 16, "timeout": 1800}),
+            plain("enum", "TestEnum",
+                  {"shards": 12, "timeout": 300},
+                  {"shards": 16, "timeout": 1800}),
+        ],
+    },
     "C07": {
         "level": "exploration",
         "phases": [
